@@ -108,19 +108,14 @@ def make_scenarios(rng, tier, seed):
         r_ = rng.random()
         nov = None if r_ < 0.3 else (0 if r_ < 0.42 else rng.randrange(0, NFFT))     # explicit 0 is a value, not "unset"
         if n > 256:
-            # long records are expensive for the model (naive DFT over linked lists): a bounded number of them per
-            # run, few channels, and about 30 segments
+            # long records: the model's segment FFT is the naive O(NFFT^2) sum (array-backed reads), so keep the
+            # number of segments of a long record near 120 and the number of long records per run bounded
             n_long += 1
-            if n_long > 6:
+            if n_long > 24:
                 n = rng.choice([128, 200, 256])
             else:
-                if n >= 2048:
-                    n, nch = (2048, 2) if n_long == 1 else (1024, nch)
-                nch = min(nch, 3)
-                if nov is None:
-                    nov = NFFT // 2
-                min_step = min(NFFT, (n - NFFT) // 30 + 1)
-                if NFFT - nov < min_step:
+                min_step = min(NFFT, (n - NFFT) // 120 + 1)
+                if nov is not None and NFFT - nov < min_step:
                     nov = NFFT - min_step
         wk = rng.choice(['hann', 'hann', 'hamming', 'rand'])
         Fs = rng.choice([1.0, 2.0, 2 * math.pi, 10.0, 250.0, rng.uniform(0.1, 100)])
@@ -402,6 +397,8 @@ def judge(sc, R):
         for k in ('coherency', 'psd', 'relphase', 'phase'):
             if not np.array_equal(np.nan_to_num(c[k]), np.nan_to_num(o[k])):
                 fails.append(('memory-setting/%s/differs' % k, 'prefer_speed_over_memory changes %s' % k, k))
+    sparse_reuse_checks(sc, fails.append)
+    cache_identity_checks(sc, fails.append)
     # seed rows against the dense result on the stacked channels
     sd = R['seed']
     ns = sc['nseed']
@@ -418,6 +415,85 @@ def judge(sc, R):
         if w:
             fails.append(('seed-freqs/%s/ne-dense' % cls, 'SeedCoherenceAnalyzer.frequencies differ from the dense grid: ' + w, 'seed'))
     return fails
+
+
+def sparse_reuse_checks(sc, bad):
+    """ONE SparseCoherenceAnalyzer re-targeted with set_input = the dense path on the new data (default method with
+    the sampling rate following the input, and a user method dict with explicit Fs / NFFT), both read orders"""
+    A = tsa()
+    import nitime.timeseries as ts
+    from nitime.analysis import SparseCoherenceAnalyzer
+    X = np.array(sc['data'], dtype=float)
+    X2 = c08.partner(X)
+    ij = [tuple(p) for p in sc['ij']]
+    Fs = sc['Fs']
+    variants = [('explicit-method', lambda: method_of(sc), Fs, sc['lb'], sc['ub']),
+                ('default-method', lambda: None, 2.0 * Fs, 0.0, None)]
+    for vname, mk, Fs2, lb, ub in variants:
+        m_exp = mk() or {'this_method': 'welch', 'Fs': Fs2}
+        want = run(lambda: A.coherency(X2, dict(m_exp)))
+        if isinstance(want, str):
+            continue
+        f, cden = want
+        li = int(np.searchsorted(f, lb, 'left'))
+        ui = len(f) if ub is None else int(np.searchsorted(f, ub, 'right'))
+        wc = np.array([cden[i, j, li:ui] for i, j in ij]).reshape(len(ij), -1)
+        for order in ('values-first', 'frequencies-first'):
+            names = ('coherency', 'spectrum', 'frequencies') if order == 'values-first' else ('frequencies', 'spectrum', 'coherency')
+
+            def go():
+                S = SparseCoherenceAnalyzer(ts.TimeSeries(X, sampling_rate=Fs), ij, method=mk(), lb=lb, ub=ub,
+                                            prefer_speed_over_memory=sc['psm'], scale_by_freq=sc['sbf'])
+                for a in names:
+                    getattr(S, a)
+                S.set_input(ts.TimeSeries(X2, sampling_rate=Fs2))
+                coh = np.asarray(S.coherency) if order == 'values-first' else None
+                fr = np.asarray(S.frequencies)
+                coh = np.asarray(S.coherency) if coh is None else coh
+                return np.array([coh[i, j] for i, j in ij]).reshape(len(ij), -1), fr
+            got = run(go)
+            if isinstance(got, str):
+                bad(('sparse-reuse/%s/%s/raises' % (vname, order), 'a re-targeted SparseCoherenceAnalyzer raised ' + got, 'sparse-coherency'))
+                continue
+            if not c08.same(got[0], wc):
+                bad(('sparse-reuse/%s/%s/stale-coherency' % (vname, order),
+                     'SparseCoherenceAnalyzer re-targeted with set_input: .coherency differs from coherency() on the new data', 'sparse-coherency'))
+            if not c08.same(got[1], f[li:ui]):
+                bad(('sparse-reuse/%s/%s/stale-frequencies' % (vname, order),
+                     'SparseCoherenceAnalyzer re-targeted with set_input: .frequencies differ from the dense grid of the new input', 'sparse-coherency'))
+
+
+def cache_identity_checks(sc, bad):
+    A = tsa()
+    ij = [tuple(p) for p in sc['ij']]
+    chans = sorted({c for p in ij for c in p})
+    kw = dict(lb=sc['lb'], ub=sc['ub'], prefer_speed_over_memory=sc['psm'], scale_by_freq=sc['sbf'])
+
+    def coh(X_, m_):
+        f_, cache = A.cache_fft(X_, ij, method=m_, **kw)
+        c_ = A.cache_to_coherency(cache, ij)
+        return np.array(f_), np.array([c_[i, j] for i, j in ij])
+
+    def psd(X_, m_):
+        f_, cache = A.cache_fft(X_, ij, method=m_, **kw)
+        p1 = A.cache_to_psd(cache, ij)
+        p2 = A.cache_to_psd(cache, ij)      # a second read of the same cache must give the same spectra
+        c_ = A.cache_to_coherency(cache, ij)   # ... and must not have disturbed the cache
+        return (np.array([np.real(np.asarray(p1[c])).reshape(-1) for c in chans]),
+                np.array([np.real(np.asarray(p2[c])).reshape(-1) for c in chans]),
+                np.array([c_[i, j] for i, j in ij]))
+    out = []
+    c08.identity_checks('cache', sc['data'], [('cache_to_coherency', coh), ('cache_to_psd', psd)], lambda: method_of(sc),
+                        lambda k, w, o: out.append((k, w, 'coherency')))
+    for t in out:
+        bad(t)
+    r = run(lambda: psd(np.array(sc['data'], dtype=float), method_of(sc)))
+    if not isinstance(r, str):
+        if not c08.same(r[0], r[1], 0.0):
+            bad(('cache/func/cache_to_psd/second-read-differs', 'cache_to_psd called twice on one cache gives different spectra', 'psd'))
+        r0 = run(lambda: coh(np.array(sc['data'], dtype=float), method_of(sc)))
+        if not isinstance(r0, str) and not c08.same(r[2], r0[1], 1e-12):
+            bad(('cache/func/cache_to_psd/disturbs-cache', 'cache_to_coherency after cache_to_psd differs from cache_to_coherency on a fresh cache', 'coherency'))
 
 
 def oracle(rng, tier, seed, focus, cases=None):
